@@ -113,12 +113,8 @@ def mustOmit (patterns : List (List String)) (p : TPath) : Bool :=
 mutual
 def omitEmpty (pats : List (List String)) : GoVal → TPath → GoVal
   | .map kvs, p => .map (omitKVs pats kvs p)
-  | .seq xs, p =>
-      -- `var c []any` + append: nothing kept ⇒ nil slice
-      match omitList pats xs p with
-      | [] => .nilseq
-      | ys => .seq ys
-  | .nilseq, _ => .nilseq
+  | .seq xs, p => .seq (omitList pats xs p)      -- `c := make([]any, 0, len(v))`: an empty sequence stays a non-nil slice
+  | .nilseq, _ => .seq []                        -- (before repo commit "OmitEmpty keeps an empty sequence empty": nil again)
   | v, _ => v
 def omitKVs (pats : List (List String)) : List (String × GoVal) → TPath → List (String × GoVal)
   | [], _ => []
